@@ -86,10 +86,20 @@ def _r1(chk, repo):
     pc = repo.cls(f"{SOLVER}:PCGLS")
     fa = repo.method(pc, "_apply_A")[1]
     x, flag = func_params(fa)[1:3]
-    t = _norm(fa)
-    ok = f"ifself._explicitA:if{flag}==1:evalu=self._A@{x}elif{flag}==2:evalu=self._A.T@{x}else:evalu=self._A({x},{flag})returnevalu" in t
+    # table over (explicit matrix?, flag): the value returned on each path
+    from .common import case_effects, expected_text
+    from ..pattern import norm as pn
+    bad = []
+    for fl_, mat in ((1, f"self._A@{x}"), (2, f"self._A.T@{x}")):
+        for explicit in (True, False):
+            eff = case_effects(repo, pc, fa, flag, fl_, extra={pn("self._explicitA"): explicit})
+            want = expected_text(mat if explicit else f"self._A({x},{flag})")
+            alt = expected_text(f"self._A({x},{fl_})")
+            if not eff or not all(e["kind"] == "return" and e["ret"] in ((want,) if explicit else (want, alt)) for e in eff):
+                bad.append(f"[explicit matrix={explicit}, flag={fl_}] {[(e['kind'], e['ret']) for e in eff]}")
+    ok = not bad
     chk.add("C16-R1", f"{pc.qual}._apply_A", ok, site(repo, fa), "flag 1: A @ x, flag 2: A.T @ x, function form A(x, flag)",
-            "PCGLS operator application: matrix and function forms do not correspond (flag 1 = forward, flag 2 = transpose)", fa)
+            "PCGLS operator application: matrix and function forms do not correspond (flag 1 = forward, flag 2 = transpose): " + "; ".join(bad), fa)
     fp = repo.method(pc, "_apply_Pinv")[1]
     x, flag = func_params(fp)[1:3]
     problems = []
